@@ -139,22 +139,83 @@ func c02TimeBased(p *Prog, c *Check) {
 			c.Fail(rule, "create:block", p.siteOf(cc), shortFn(fn), "createTriggers… block argument", "triggers are created for a different block than the observed one")
 			continue
 		}
-		apps := appendsInto(fi, cc.Common().Args[2])
-		for _, ap := range apps {
-			n++
-			vals, ok := appendedValues(ap)
-			key := fmt.Sprintf("collect#%d", n)
-			if !ok || len(vals) != 1 {
-				c.Fail(rule, key, p.siteOf(ap), shortFn(fn), "append to eventsToDecrypt", "events are collected wholesale, not one by one under the trigger condition")
-				continue
+		// the list handed to createTriggers… is filled here, or by a helper whose result it is
+		type collectSite struct {
+			fi   *FnInfo
+			apps []*ssa.Call
+			blk  *Term
+		}
+		var csites []collectSite
+		evArg := cc.Common().Args[2]
+		if apps := appendsInto(fi, evArg); len(apps) > 0 {
+			csites = append(csites, collectSite{fi, apps, blk})
+		} else if et := fi.T(evArg); et.K == TRes || et.K == TCall {
+			ct := et
+			ridx := 0
+			if ct.K == TRes {
+				ridx = ct.Idx
+				ct = ct.Sub[0]
 			}
-			b := Binds{"ev": fi.T(vals[0]), "blk": blk}
-			if c.Guard(p, rule, key, ap, "eventsToDecrypt = append(…, event)", b,
-				"shouldTriggerDecryption(_, _, $ev, $blk)#0 == true",
-				"shouldTriggerDecryption(_, _, $ev, $blk)#1 == nil") {
-				// the event comes from the not-decrypted query
-				okSrc := ParsePat("GetNotDecryptedIdentityRegisteredEvents(...)#0[_]").Match(b["ev"], Binds{})
-				c.Result(okSrc, rule, key+":source", p.siteOf(ap), shortFn(fn), "collected event", "the collected event is not a row of GetNotDecryptedIdentityRegisteredEvents: "+b["ev"].s, "row of the decrypted=false query")
+			if ct.K == TCall && ct.Callee != nil && inModule(ct.Callee) && ct.Callee.Blocks != nil {
+				h := origin(ct.Callee)
+				hfi := p.Info(h)
+				var hblk *Term
+				for i, prm := range h.Params {
+					if i < len(ct.Sub) && ct.Sub[i].s == blk.s {
+						hblk = hfi.T(prm)
+					}
+				}
+				nres := h.Signature.Results().Len()
+				if hblk != nil {
+					var apps []*ssa.Call
+					okH := true
+					for _, hr := range returnsOf(h) {
+						if nres > 1 && isErrorType(h.Signature.Results().At(nres-1).Type()) && hfi.errIsNil(hr.Results[nres-1], hr, 0) == no {
+							continue
+						}
+						if hfi.T(hr.Results[ridx]).K == TNil {
+							continue
+						}
+						a := appendsInto(hfi, hr.Results[ridx])
+						if len(a) == 0 {
+							// an empty (freshly made) list is fine; anything else is not a filtered collection
+							if _, isMake := sliceOrigin(hr.Results[ridx]).(*ssa.MakeSlice); !isMake {
+								if els, isLit := sliceLitElems(hr.Results[ridx]); !isLit || len(els) != 0 {
+									okH = false
+								}
+							}
+						}
+						apps = append(apps, a...)
+					}
+					if okH && len(apps) > 0 {
+						csites = append(csites, collectSite{hfi, apps, hblk})
+						c.Analysed(shortFn(h))
+					}
+				}
+			}
+		}
+		for _, cs := range csites {
+			seenApp := map[*ssa.Call]bool{}
+			for _, ap := range cs.apps {
+				if seenApp[ap] {
+					continue
+				}
+				seenApp[ap] = true
+				n++
+				vals, ok := appendedValues(ap)
+				key := fmt.Sprintf("collect#%d", n)
+				if !ok || len(vals) != 1 {
+					c.Fail(rule, key, p.siteOf(ap), shortFn(cs.fi.Fn), "append to eventsToDecrypt", "events are collected wholesale, not one by one under the trigger condition")
+					continue
+				}
+				b := Binds{"ev": cs.fi.T(vals[0]), "blk": cs.blk}
+				if c.Guard(p, rule, key, ap, "eventsToDecrypt = append(…, event)", b,
+					"shouldTriggerDecryption(_, _, $ev, $blk)#0 == true",
+					"shouldTriggerDecryption(_, _, $ev, $blk)#1 == nil") {
+					// the event comes from the not-decrypted query
+					okSrc := p.termMatchesLifted(cs.fi.Fn, b["ev"], "GetNotDecryptedIdentityRegisteredEvents(...)#0[_]", 0)
+					c.Result(okSrc, rule, key+":source", p.siteOf(ap), shortFn(cs.fi.Fn), "collected event", "the collected event is not a row of GetNotDecryptedIdentityRegisteredEvents: "+b["ev"].s, "row of the decrypted=false query")
+				}
 			}
 		}
 	}
@@ -289,20 +350,31 @@ func c02Literals(p *Prog, c *Check) {
 	c.Analysed(shortFn(ef))
 	efi := p.Info(ef)
 	ne := 0
+	// every trigger appended to the result: a literal built here, or by a helper (its fields translated
+	// through the argument substitution)
 	for _, b := range ef.Blocks {
 		for _, in := range b.Instrs {
-			al, ok := in.(*ssa.Alloc)
-			if !ok || !strings.HasSuffix(deref(al.Type()).String(), "epochkghandler.DecryptionTrigger") {
+			call, ok := in.(*ssa.Call)
+			if !ok {
 				continue
 			}
-			flds := efi.structLitFields(al)
+			vals, isApp := appendedValues(call)
+			if !isApp || len(vals) != 1 || !strings.HasSuffix(deref(vals[0].Type()).String(), "epochkghandler.DecryptionTrigger") {
+				continue
+			}
+			var flds map[string]*Term
+			if f := efi.structLitFields(vals[0]); len(f) > 0 {
+				flds = f
+			} else {
+				flds = litFieldsOfTerm(p, efi, efi.T(vals[0]), 0)
+			}
 			if len(flds) == 0 {
 				continue
 			}
 			ne++
 			key := fmt.Sprintf("prepareEventBasedTriggers:literal#%d", ne)
 			bnd := Binds{}
-			if !c.Guard(p, rule, key, al, "DecryptionTrigger{…}", bnd,
+			if !c.Guard(p, rule, key, call, "DecryptionTrigger{…}", bnd,
 				"resolveDecryptableEon(_, _, _, $eon)#1 == true",
 				"resolveDecryptableEon(_, _, _, $eon)#2 == nil") {
 				continue
@@ -310,19 +382,19 @@ func c02Literals(p *Prog, c *Check) {
 			// identities: sorter over an in-order map of the rows grouped under $eon
 			ib := copyBinds(bnd)
 			okI := false
-			if ParsePat("sortIdentityPreimages($acc)").Match(flds["IdentityPreimages"], ib) && ib["acc"].Val != nil {
-				if mo := efi.asMapOver(p, ib["acc"].Val); mo != nil && len(mo.Elems) == 1 {
+			if ParsePat("sortIdentityPreimages($acc)").Match(flds["IdentityPreimages"], ib) {
+				if mv := efi.mapViewOf(p, ib["acc"], 0); mv != nil {
 					// rows and eon are the value and key of the same map range
-					rows := mo.Loop.Bound
+					rows := mv.Bound
 					if rows.K == TLen && rows.Sub[0].K == TRes && bnd["eon"].K == TRes && rows.Sub[0].Sub[0].s == bnd["eon"].Sub[0].s {
-						eb := Binds{"rows": rows.Sub[0], "j": mo.Loop.Idx}
-						okI = ParsePat("$rows[$j].Identity").Match(mo.Elems[0], eb)
+						eb := Binds{"rows": rows.Sub[0], "j": mv.Idx}
+						okI = ParsePat("$rows[$j].Identity").Match(mv.Elem, eb)
 					}
 				}
 			}
-			c.Result(okI, rule, key+":identities", p.siteOf(al), shortFn(ef), "identities of the event based trigger", "identities are not exactly those of the fired-trigger rows grouped under the keyper-set index that was found decryptable", "rows of the same map entry")
+			c.Result(okI, rule, key+":identities", p.siteOf(call), shortFn(ef), "identities of the event based trigger", "identities are not exactly those of the fired-trigger rows grouped under the keyper-set index that was found decryptable", "rows of the same map entry")
 			okB := ParsePat("resolveDecryptableEon(_, _, _, $eon)#0.ActivationBlockNumber").Match(flds["BlockNumber"], copyBinds(bnd))
-			c.Result(okB, rule, key+":block", p.siteOf(al), shortFn(ef), "BlockNumber of the trigger", "the trigger's block number is not the activation block of the eon resolved for the same keyper set", "eon.ActivationBlockNumber")
+			c.Result(okB, rule, key+":block", p.siteOf(call), shortFn(ef), "BlockNumber of the trigger", "the trigger's block number is not the activation block of the eon resolved for the same keyper set", "eon.ActivationBlockNumber")
 		}
 	}
 	c.Floor(rule+".event", ne, 1)
